@@ -109,7 +109,7 @@ class Acc:
         self.errors = []
 
     def add(self, res, max_samples=3):
-        self.evaluations += 1
+        self.evaluations += 1 + int(res.get('extra_evals', 0))
         k = res.get('key')
         if k is not None:
             self.all_keys.add(k)
